@@ -9,5 +9,7 @@ CONSTANTS
   MaxBurst = 1
   MaxHold = 1
   MaxSick = 0
+  MaxReset = 0
+  AllowReset = TRUE
   Depth = 8
 CHECK_DEADLOCK FALSE
